@@ -50,29 +50,18 @@ Fixpoint rstrip0 (s : string) : string :=
                   end
   end.
 
-(* non-empty, and every character except the last one is a digit *)
-Fixpoint digits_then_one (s : string) : bool :=
-  match s with
-  | EmptyString => false
-  | String c EmptyString => true
-  | String c r => is_digit c && digits_then_one r
-  end.
-
 Definition nonempty (s : string) : bool := match s with EmptyString => false | _ => true end.
 
-(* r matches [0-9]*[^0]0+$ : Some (r without the zeros) *)
-Definition re1_tail (r : string) : option string :=
-  let r' := rstrip0 r in
-  if digits_then_one r' && negb (String.eqb r' r) then Some r' else None.
-
-(* re.sub(r'^([-+]?[0-9]*\.[0-9]*[^0])0+$', r'\1', s) *)
+(* re.sub(r'^([-+]?[0-9]*\.[0-9]*?)0+$', r'\1', s): the fraction is matched
+   lazily, so group 1 ends where the maximal final run of zeros starts; the
+   pattern matches iff the characters after the point are all digits and end
+   with '0' *)
 Definition pass1 (s : string) : string :=
   let (d1, t) := span_digits (strip_sign s) in
   match t with
-  | String "." r => match re1_tail r with
-                    | Some r' => sign_of s ++ d1 ++ "." ++ r'
-                    | None => s
-                    end
+  | String "." r =>
+      if all_digits r && negb (String.eqb (rstrip0 r) r)
+      then sign_of s ++ d1 ++ "." ++ rstrip0 r else s
   | _ => s
   end.
 
